@@ -207,8 +207,9 @@ def run_driver(lines: List[str]) -> List[Dict[str, Any]]:
     res = []
     for i, l in enumerate(out):
         r = json.loads(l)
-        if "bad" in r:
-            raise InfraError(f"driver protocol error on line {i}: {r['bad']} :: {lines[i][:300]}")
+        # {"bad": ...}: the model op could not make sense of the line. Inputs are partly derived from the
+        # implementation under test (packed octets, decoded fields), so this is reported per case as a broken
+        # correspondence (see compare), not as an infrastructure failure of the whole run.
         res.append(r)
     return res
 
@@ -222,6 +223,10 @@ def restrict(payload: Any, keys: Optional[List[str]]) -> Any:
 def compare(case: Case, impl: Dict[str, Any], model: Dict[str, Any]) -> Optional[Violation]:
     """returns a Violation or None. `concrete` says whether the case itself is a failing input."""
     op = case.op
+    if "bad" in model:
+        return Violation("correspondence", op, model, impl, concrete=False, expect=case.expect,
+                         note="the model op cannot evaluate this line (it was derived from implementation output): "
+                              + str(model["bad"])[:300])
     if "selfcheck" in impl:
         return Violation("self_check", op, "property clause holds", impl["selfcheck"], expect=case.expect)
     impl_ok = "ok" in impl
@@ -233,7 +238,10 @@ def compare(case: Case, impl: Dict[str, Any], model: Dict[str, Any]) -> Optional
                          expect=case.expect)
     if case.expect == "valid":
         if not model_ok:
-            raise InfraError(f"generator produced a 'valid' case the model rejects: {op} -> {model}")
+            # the generator builds some 'valid' inputs with the implementation (pack, then decode): a model
+            # refusal then means the implementation produced something outside the property's domain
+            return Violation("correspondence", op, model, impl, concrete=False, expect=case.expect,
+                             note="an input generated as valid (possibly derived from implementation output) is refused by the model")
         if not impl_ok:
             return Violation("spec_mismatch", op, model, impl,
                              note="valid input rejected by the implementation", expect=case.expect)
@@ -245,7 +253,8 @@ def compare(case: Case, impl: Dict[str, Any], model: Dict[str, Any]) -> Optional
         return None
     if case.expect == "invalid":
         if model_ok:
-            raise InfraError(f"generator produced an 'invalid' case the model accepts: {op} -> {model}")
+            return Violation("correspondence", op, model, impl, concrete=False, expect=case.expect,
+                             note="an input generated as must-be-refused (possibly derived from implementation output) is accepted by the model")
         if impl_ok:
             return Violation("accepted_invalid", op, model, impl,
                              note="input that must be refused was accepted", expect=case.expect)
